@@ -15,9 +15,11 @@
 package meta
 
 import (
+	"bytes"
 	"context"
 	"fmt"
 	"reflect"
+	"sort"
 )
 
 var (
@@ -358,12 +360,29 @@ func write(ctx context.Context, oprot Protocol, tt *TypeMeta, gv reflect.Value) 
 		if err := oprot.WriteMapBegin(ctx, tt.KeyType.TypeID, tt.ValueType.TypeID, gv.Len()); err != nil {
 			return err
 		}
+		// write the entries in the order of their encoded keys, so that the
+		// bytes do not depend on Go's map iteration order
+		type entry struct {
+			enc      []byte
+			key, val reflect.Value
+		}
+		entries := make([]entry, 0, gv.Len())
 		iter := gv.MapRange()
 		for iter.Next() {
-			if err := write(ctx, oprot, tt.KeyType, iter.Key()); err != nil {
+			mem := new(MemoryTransport)
+			if err := write(ctx, NewBinaryProtocol(mem), tt.KeyType, iter.Key()); err != nil {
 				return err
 			}
-			if err := write(ctx, oprot, tt.ValueType, iter.Value()); err != nil {
+			entries = append(entries, entry{enc: mem.Bytes(), key: iter.Key(), val: iter.Value()})
+		}
+		sort.SliceStable(entries, func(i, j int) bool {
+			return bytes.Compare(entries[i].enc, entries[j].enc) < 0
+		})
+		for _, e := range entries {
+			if err := write(ctx, oprot, tt.KeyType, e.key); err != nil {
+				return err
+			}
+			if err := write(ctx, oprot, tt.ValueType, e.val); err != nil {
 				return err
 			}
 		}
